@@ -5,6 +5,7 @@ use crate::proj;
 use crate::report::{Report, RunCfg};
 use crate::util::*;
 use serde_json::json;
+use std::collections::BTreeMap;
 
 fn describe(c: &Case) -> Vec<String> {
     let mut d = vec![format!("depth:{}", c.ty.depth())];
@@ -150,12 +151,16 @@ fn recursion_modules(cfg: &RunCfg) -> Vec<(String, String)> {
 pub fn run(cfg: &RunCfg) -> Report {
     let mut rep = Report::new(
         "C02",
-        "shapes: exhaustive slice (≤3 components × optionality × 5 component types × marker at every position × SEQUENCE/SET/CHOICE) plus seeded random type assignments (0..12 components, every built-in and referenced type, nesting ≤4, groups, all tagging/extensibility defaults); recursion: 18 hand-written reference-cycle scenarios plus seeded random reference graphs over 2..4 types. Non-trivial = compiled and every item read back; distinct = distinct notation",
+        "shapes: exhaustive slice (≤3 components × optionality × 5 component types × marker at every position × SEQUENCE/SET/CHOICE) plus seeded random type assignments (0..12 components, every built-in and referenced type, nesting ≤4, groups, all tagging/extensibility defaults); recursion: 18 hand-written reference-cycle scenarios plus seeded random reference graphs over 2..4 types; reference graphs over 2..8 definitions (members mentioning definitions directly, through one or two levels of anonymous types, several times, or only behind lists; aliases, list types, leaves; names in every order) whose boxed members are compared one by one with the model of the recursion analysis. Non-trivial = compiled and every item read back; distinct = distinct notation",
     );
     if let Some(r) = &cfg.replay {
         let r = r.get("case").unwrap_or(r);
-        if let Some(m) = r.get("recursion_module").and_then(|m| m.as_str()) {
-            judge_recursion(&[("replay".to_string(), m.to_string())], &mut rep);
+        if let (Some(m), Some(g)) = (r.get("recursion_module").and_then(|m| m.as_str()), r.get("graph_request").and_then(|m| m.as_str())) {
+            let body = m.lines().filter(|l| !l.starts_with("Rec-Mod DEFINITIONS") && *l != "END").collect::<Vec<_>>().join("\n");
+            judge_marking(&[RecGraph { label: "replay".into(), body, request: g.to_string() }], &mut rep);
+        } else if let Some(m) = r.get("recursion_module").and_then(|m| m.as_str()) {
+            let body = m.lines().filter(|l| !l.starts_with("Rec-Mod DEFINITIONS") && *l != "END").collect::<Vec<_>>().join("\n");
+            judge_recursion(&[("replay".to_string(), body)], &mut rep);
         } else {
             judge("c02", &[case_from_replay(r).expect("bad replay")], &mut rep, &describe);
         }
@@ -167,7 +172,171 @@ pub fn run(cfg: &RunCfg) -> Report {
     rep.exhaustive = true;
     judge("c02", &cases, &mut rep, &describe);
     judge_recursion(&recursion_modules(cfg), &mut rep);
+    judge_marking(&recursion_graphs(cfg), &mut rep);
     rep
+}
+
+/// a set of definitions described abstractly: the notation, and what the recursion analysis sees of it
+pub struct RecGraph {
+    pub label: String,
+    pub body: String,
+    /// `recmark ( (name markable ( (ref ..) .. )) .. )`, definitions in the order the linker analyses them
+    pub request: String,
+}
+
+/// reference graphs over 2..8 definitions: SEQUENCE / SET / CHOICE with members that mention other
+/// definitions directly, through nested anonymous types (one or two levels, several mentions), or only behind
+/// SEQUENCE OF / SET OF; aliases, list types and leaves; names that sort in every order
+fn recursion_graphs(cfg: &RunCfg) -> Vec<RecGraph> {
+    let mut rng = Rng::new(cfg.seed ^ 0xC02B);
+    let n = cfg.budget(250, 5000);
+    let mut out = Vec::new();
+    for k in 0..n {
+        let nt = 2 + rng.below(7);
+        let mut names: Vec<String> = Vec::new();
+        while names.len() < nt {
+            let c = format!("{}{}", ["N", "A", "Z", "M", "Q"][rng.below(5)], (b'a' + rng.below(8) as u8) as char);
+            if !names.contains(&c) {
+                names.push(c);
+            }
+        }
+        // kinds first: aliases may only point at non-aliases
+        let kinds: Vec<usize> = (0..nt).map(|_| [0, 0, 0, 1, 1, 2, 2, 3, 4, 5][rng.below(10)]).collect();
+        let non_alias: Vec<String> = (0..nt).filter(|i| kinds[*i] != 3).map(|i| names[i].clone()).collect();
+        let mut defs: Vec<(String, bool, Vec<Vec<String>>, String)> = Vec::new();
+        for i in 0..nt {
+            let name = names[i].clone();
+            match kinds[i] {
+                3 if !non_alias.is_empty() => {
+                    let t = rng.pick(&non_alias).clone();
+                    defs.push((name.clone(), false, vec![vec![t.clone()]], format!("{name} ::= {t}")));
+                }
+                4 => {
+                    let t = rng.pick(&names).clone();
+                    defs.push((name.clone(), false, vec![], format!("{name} ::= {} OF {t}", ["SEQUENCE", "SET"][rng.below(2)])));
+                }
+                5 | 3 => defs.push((name.clone(), false, vec![], format!("{name} ::= INTEGER (0..7)"))),
+                kind => {
+                    let nc = 1 + rng.below(4);
+                    let mut comps: Vec<String> = Vec::new();
+                    let mut members: Vec<Vec<String>> = Vec::new();
+                    if kind == 2 {
+                        comps.push("base NULL".into());
+                        members.push(vec![]);
+                    }
+                    for j in 0..nc {
+                        let t = rng.pick(&names).clone();
+                        let u = rng.pick(&names).clone();
+                        let (ty, refs): (String, Vec<String>) = match rng.below(10) {
+                            0 => ("INTEGER".into(), vec![]),
+                            1 => (format!("SEQUENCE OF {t}"), vec![]),
+                            2 | 3 => (t.clone(), vec![t.clone()]),
+                            4 => (format!("SEQUENCE {{ deep {t} OPTIONAL }}"), vec![t.clone()]),
+                            5 => (format!("SET {{ deep {t} OPTIONAL, other {u} OPTIONAL }}"), vec![t.clone(), u.clone()]),
+                            6 => (format!("CHOICE {{ stop NULL, back {t} }}"), vec![t.clone()]),
+                            7 => (format!("SEQUENCE {{ l1 SEQUENCE {{ l2 {t} OPTIONAL }}, m1 {u} OPTIONAL }}"), vec![t.clone(), u.clone()]),
+                            8 => (format!("SEQUENCE {{ lst SET OF {t}, d {u} OPTIONAL }}"), vec![u.clone()]),
+                            _ => (format!("SEQUENCE {{ x {t}, y {t} OPTIONAL }}"), vec![t.clone(), t.clone()]),
+                        };
+                        let opt = if kind != 2 && rng.chance(2, 3) { " OPTIONAL" } else { "" };
+                        comps.push(format!("f{j} {ty}{opt}"));
+                        members.push(refs);
+                    }
+                    let kw = ["SEQUENCE", "SET", "CHOICE"][kind];
+                    defs.push((name.clone(), true, members, format!("{name} ::= {kw} {{ {} }}", comps.join(", "))));
+                }
+            }
+        }
+        let body = defs.iter().map(|d| d.3.clone()).collect::<Vec<_>>().join("\n");
+        let mut sorted: Vec<&(String, bool, Vec<Vec<String>>, String)> = defs.iter().collect();
+        // `Validator::link` pops its key list from the end: definitions are analysed in descending key order
+        sorted.sort_by(|a, b| b.0.cmp(&a.0));
+        let request = format!(
+            "recmark {}",
+            sx_list(sorted.iter().map(|d| format!("( {} {} {} )", hex(&d.0), sx_bool(d.1), sx_list(d.2.iter().map(|r| sx_list(r.iter().map(|x| hex(x))))))))
+        );
+        out.push(RecGraph { label: format!("graph-{k}"), body, request });
+    }
+    out
+}
+
+/// model tie: the members the code boxes are exactly the members the model of the analysis marks; and the spec
+/// oracle on the output (no SEQUENCE / SET / CHOICE on a cycle of unboxed inline references)
+fn judge_marking(graphs: &[RecGraph], rep: &mut Report) {
+    let mut reqs = Vec::new();
+    let mut meta = Vec::new();
+    for g in graphs {
+        rep.evaluations += 1;
+        let text = format!("Rec-Mod DEFINITIONS AUTOMATIC TAGS ::= BEGIN\n{}\nEND\n", g.body);
+        let case = json!({"recursion_module": text, "label": g.label, "graph_request": g.request});
+        match compile_rasn(&[text.clone()]) {
+            Outcome::Ok { generated, warnings } => match proj::project(&generated) {
+                Ok(ms) => {
+                    let Some(m) = ms.first() else { continue };
+                    if !warnings.is_empty() {
+                        rep.count("marking:warnings");
+                    }
+                    // observed: per struct / enum item, one bit per field / variant
+                    let mut seen: BTreeMap<String, String> = BTreeMap::new();
+                    for it in &m.items {
+                        let bits: Option<String> = match &it.kind {
+                            proj::ItemKind::Struct { fields, tuple: false } => Some(fields.iter().map(|f| if f.ty.replace(' ', "").contains("Box<") { '1' } else { '0' }).collect()),
+                            proj::ItemKind::Enum { variants } => Some(variants.iter().map(|v| if v.payload.as_deref().unwrap_or("").replace(' ', "").contains("Box<") { '1' } else { '0' }).collect()),
+                            _ => None,
+                        };
+                        if let Some(b) = bits {
+                            seen.insert(it.name.clone(), b);
+                        }
+                    }
+                    let items: Vec<String> = m.items.iter().filter_map(item_sx).collect();
+                    rep.distinct.insert(g.body.clone());
+                    reqs.push(g.request.clone());
+                    reqs.push(format!("recgraph {}", sx_list(items)));
+                    meta.push((case, seen));
+                }
+                Err(e) => rep.harness_errors.push(format!("projection failed: {e}")),
+            },
+            Outcome::Err(e) => {
+                rep.count("marking:compile-err");
+                rep.sample(json!({"compile_err": e, "module": text}));
+            }
+            Outcome::Panic(p) => {
+                rep.unsat("", false, json!({"why": format!("panic: {p}"), "case": case}));
+            }
+        }
+    }
+    match run_driver(&reqs) {
+        Ok(ans) => {
+            for (k, (case, seen)) in meta.iter().enumerate() {
+                let (marks, cyc) = (&ans[2 * k], &ans[2 * k + 1]);
+                if k % 53 == 0 {
+                    rep.sample(json!({"marking": case, "model": marks, "oracle": cyc}));
+                }
+                if cyc != "acyclic" {
+                    rep.unsat("", false, json!({"why": format!("a recursive component is stored inline (not boxed): {cyc}"), "case": case}));
+                }
+                let mut any_marked = false;
+                for tok in marks.split(' ').filter(|t| *t != "-") {
+                    let Some((name, bits)) = tok.split_once(':') else {
+                        rep.harness_errors.push(format!("driver answer `{marks}`"));
+                        break;
+                    };
+                    if bits == "-" {
+                        continue;
+                    }
+                    any_marked |= bits.contains('1');
+                    match seen.get(name) {
+                        Some(ob) if ob == bits => {}
+                        // aliases are tuple structs: one unmarkable pseudo-member in the model
+                        None if !bits.contains('1') => {}
+                        other => rep.disagree(json!({"difference": format!("definition {name}: the model of the analysis marks members {bits}, the generated item boxes {:?}", other), "case": case})),
+                    }
+                }
+                rep.count(if any_marked { "marking:some-member-boxed" } else { "marking:nothing-boxed" });
+            }
+        }
+        Err(e) => rep.harness_errors.push(e),
+    }
 }
 
 fn judge_recursion(mods: &[(String, String)], rep: &mut Report) {
